@@ -3,9 +3,10 @@ import Mfi.Driver.PanicD
 import Mfi.Driver.InterestD
 import Mfi.Driver.IntegrD
 import Mfi.Driver.BankD
+import Mfi.Driver.TokenD
 open Mfi.Driver
 
-def handlers : List (String → List Int → Option String) := [fxOp, panicOp, irOp, igOp, bankOp]
+def handlers : List (String → List Int → Option String) := [fxOp, panicOp, irOp, igOp, bankOp, tokOp]
 
 def stepLine (line : String) : String :=
   match line.trimAscii.toString.splitOn " " with
